@@ -51,9 +51,11 @@ type Violation struct {
 	Line    int             `json:"line"`
 	Event   json.RawMessage `json:"event"`
 	History *History        `json:"history"`
+	HHist   json.RawMessage `json:"handle_history,omitempty"`
 	Profile string          `json:"profile"`
 	Context []string        `json:"context"` // the trace lines of that history up to the rejected one
 	Note    string          `json:"note"`
+	hid     int
 }
 
 type SeqRun struct {
@@ -63,6 +65,7 @@ type SeqRun struct {
 	Scratch  string
 	mu       sync.Mutex
 	hists    map[int]*History
+	hhists   map[int][]byte
 	shards   []string
 	Events   int
 	Counts   map[string]int
@@ -263,7 +266,8 @@ func (r *SeqRun) validateShard(path string) {
 			ctx = append([]string{ctx[0], "..."}, ctx[len(ctx)-38:]...)
 		}
 		v := Violation{Prop: r.P.Prop, Line: bad, Event: json.RawMessage(lines[bad-1]), History: r.hists[eh.Hid],
-			Profile: r.P.Prop, Context: ctx}
+			HHist: r.hhists[eh.Hid], Profile: r.P.Prop, Context: ctx}
+		v.hid = eh.Hid
 		r.confirm(&v)
 		// cut the rest of that history and check the remainder of the shard
 		rest := append(append([]string(nil), lines[:bad-1]...), lines[end:]...)
@@ -276,19 +280,19 @@ func (r *SeqRun) validateShard(path string) {
 
 // confirm re-executes the history alone; only a reproduced rejection is a violation.
 func (r *SeqRun) confirm(v *Violation) {
-	if v.History == nil {
-		r.infra("rejected event without history: %s", string(v.Event))
+	if v.History == nil && v.HHist == nil {
+		r.infra("rejected event without history: %s", truncate(string(v.Event), 500))
 		return
 	}
-	ok, line, ev := r.replayHistory(v.History)
+	ok, line, ev := r.replayAny(v)
 	if ok {
 		// the sequential replay does not reproduce: not a violation (exit 2)
-		r.infra("UNREPRODUCED rejection in history %d at line %d: %s", v.History.ID, v.Line, string(v.Event))
+		r.infra("UNREPRODUCED rejection in history %d at line %d: %s", v.hid, v.Line, truncate(string(v.Event), 500))
 		return
 	}
 	v.Note = fmt.Sprintf("reproduced on re-execution (rejected at line %d: %s)", line, ev)
 	os.MkdirAll("/verif/replays", 0o755)
-	p := fmt.Sprintf("/verif/replays/%s-seed%d-h%d.json", r.P.Prop, r.Seed, v.History.ID)
+	p := fmt.Sprintf("/verif/replays/%s-seed%d-h%d.json", r.P.Prop, r.Seed, v.hid)
 	b, _ := json.MarshalIndent(v, "", " ")
 	os.WriteFile(p, b, 0o644)
 	v.Replay = p
@@ -304,6 +308,45 @@ func truncate(s string, n int) string {
 		return s[:n] + "..."
 	}
 	return s
+}
+
+func (r *SeqRun) replayAny(v *Violation) (bool, int, string) {
+	if v.History != nil {
+		return r.replayHistory(v.History)
+	}
+	var hh hHist
+	if err := json.Unmarshal(v.HHist, &hh); err != nil {
+		r.infra("replay: %v", err)
+		return true, 0, ""
+	}
+	dir, _ := os.MkdirTemp(r.Scratch, "replay")
+	defer os.RemoveAll(dir)
+	path := filepath.Join(dir, "trace.ndjson")
+	tw, err := NewTraceWriter(path, r.P.KF)
+	if err != nil {
+		r.infra("replay: %v", err)
+		return true, 0, ""
+	}
+	runHandleHist(&hh, dir, tw)
+	tw.Close()
+	return r.judgeReplay(path)
+}
+
+func (r *SeqRun) judgeReplay(path string) (bool, int, string) {
+	run, bad := validateTrace(r.P.Module, r.P.Cfg, path, r.Scratch)
+	if run.Infra != nil {
+		r.infra("replay validate: %v", run.Infra)
+		return true, 0, ""
+	}
+	if bad == 0 {
+		return true, 0, ""
+	}
+	lines, _ := readLines(path)
+	ev := ""
+	if bad <= len(lines) {
+		ev = truncate(lines[bad-1], 400)
+	}
+	return false, bad, ev
 }
 
 // replayHistory executes one history in a fresh directory and validates its trace.
@@ -396,4 +439,42 @@ func truncateJSON(l string) string {
 		return `{"truncated":` + fmt.Sprintf("%q", l[:1500]) + `}`
 	}
 	return l
+}
+
+// execHandleHists runs C19 handle histories (their own executor) into shards.
+func (r *SeqRun) execHandleHists(hs []*hHist) {
+	workers := 8
+	var wg sync.WaitGroup
+	for w := 0; w < workers; w++ {
+		wg.Add(1)
+		go func(w int) {
+			defer wg.Done()
+			path := filepath.Join(r.Scratch, fmt.Sprintf("trace-hnd-%02d.ndjson", w))
+			tw, err := NewTraceWriter(path, r.P.KF)
+			if err != nil {
+				r.infra("trace writer: %v", err)
+				return
+			}
+			for i := w; i < len(hs); i += workers {
+				runHandleHist(hs[i], r.Scratch, tw)
+			}
+			tw.Close()
+			r.mu.Lock()
+			r.shards = append(r.shards, path)
+			r.Events += tw.n
+			for k, v := range tw.counts {
+				r.Counts[k] += v
+			}
+			r.mu.Unlock()
+		}(w)
+	}
+	wg.Wait()
+	r.mu.Lock()
+	for _, h := range hs {
+		b, _ := json.Marshal(h)
+		r.hhists[h.ID] = b
+		r.Sigs[fmt.Sprintf("hh-%x", sha1.Sum(b))[:16]] = struct{}{}
+	}
+	r.NHist += len(hs)
+	r.mu.Unlock()
 }
